@@ -81,5 +81,19 @@ shutil.copy(patch, dest)
 for d in demos: shutil.copy(d, os.path.join(dest, os.path.basename(d) + ".txt"))  # .txt: not compiled by anything
 if os.path.exists(os.path.join(out, "notes.md")): shutil.copy(os.path.join(out, "notes.md"), dest)
 meta["caught_by"] = [r["check"] for r in meta["ran"] if r["exit"] == 1]
+# keep the hand-written annotations of an earlier (triage) run
+old = os.path.join(dest, "meta.json")
+if os.path.exists(old):
+    try:
+        prev = json.load(open(old))
+        for k in ("needs_to_manifest", "first_round"):
+            if k in prev and k not in meta:
+                meta[k] = prev[k]
+    except Exception:
+        pass
+if not SCRATCH:
+    meta["what_was_run"] = "tools/try_seed.py: patch applied in a scratch worktree (suite green, demo fails with / passes without it), then applied to /repo with `git -C /repo apply`, `./check <property> --tier quick` run for %s, `git -C /repo checkout -- .` straight afterwards" % ", ".join(props)
+for r in meta["ran"]:
+    r["output"] = r["output"][:2]
 json.dump(meta, open(os.path.join(dest, "meta.json"), "w"), indent=1)
 print("caught by:", meta["caught_by"])
